@@ -80,6 +80,54 @@ fn matrix(acc: &mut Acc) {
             acc.check(&c, |_| check_pair(t, &c, *sv));
         }
     }
+    // header rewriting of plain (unauthenticated) strings: the body of a valid string of one kind
+    // under the header of a kind whose body has a fixed, different length (ids: 33 bytes; typed
+    // keys: the kind's exact length) must be rejected
+    let mut relabels = 0u64;
+    for (sb, sv, sk, text) in &sources {
+        let Some(body) = text.rfind('.').map(|i| &text[i + 1..]) else { continue };
+        let Some(bytes) = crate::util::b64_decode(body) else { continue };
+        for t in &types {
+            if texttypes::kind_compatible(sk, t.kind, t.ver) == Some(true) && t.ver == *sv {
+                continue;
+            }
+            let required: Option<usize> = if t.kind.starts_with("id.") {
+                Some(33)
+            } else if t.kind.starts_with("key.") {
+                let k = match t.kind {
+                    "key.local" => "Local",
+                    "key.public" => "Public",
+                    "key.secret" => "Secret",
+                    "key.pke-public" => "PkePublic",
+                    _ => "PkeSecret",
+                };
+                kind_len(t.ver, k)
+            } else {
+                None
+            };
+            let Some(req) = required else { continue };
+            if bytes.len() == req {
+                continue;
+            }
+            let rewritten = format!("{}{}", t.header, body);
+            let c = PairCase { source_backend: sb.to_string(), source_kind: format!("{sk} body under another header"), target_backend: t.backend.to_string(), target_kind: t.kind.to_string(), text: rewritten.clone() };
+            acc.eval();
+            relabels += 1;
+            acc.nt(hash_of(&(sb, sk, t.backend, t.kind, &rewritten)));
+            acc.class("pair:body-relabelled-to-fixed-length-kind");
+            acc.check(&c, |_| {
+                if (t.parse)(&rewritten).is_ok() {
+                    Err(Fail::new(
+                        format!("C10/{}/{}/accepts-relabelled-{}-byte-body", t.backend, t.kind, bytes.len()),
+                        format!("the {}-byte body of a {} {} string was accepted by the {} parser of {} (which needs exactly {req} bytes) after rewriting only the header: {}", bytes.len(), sv.v(), sk, t.kind, t.backend, rewritten.chars().take(70).collect::<String>()),
+                    ))
+                } else {
+                    Ok(())
+                }
+            });
+        }
+    }
+    acc.class_n("relabelled-bodies", relabels);
     acc.exhaustive.push(format!("ordered pairs of {} (back end, kind) parsers x every kind of source string: {} parse calls", types.len(), pairs));
     acc.sample(|| json!({"parsers": types.len(), "source_strings": sources.len(), "example": {"source": "k3.local-wrap.pie.* from paseto-v3", "targets": ["paseto-v3-aws-lc pie.local => must accept", "paseto-v3 pie.secret => must reject", "paseto-v1 pie.local => must reject"]}}));
 }
@@ -87,6 +135,10 @@ fn matrix(acc: &mut Acc) {
 fn replay_pair(v: &Value, _acc: &mut Acc) -> R {
     let c: PairCase = serde_json::from_value(v.clone()).map_err(|e| Fail::new("HARNESS/replay-decode", format!("{e}")))?;
     let types = texttypes::all_types();
+    if c.source_kind.ends_with("body under another header") {
+        let t = types.iter().find(|t| t.backend == c.target_backend && t.kind == c.target_kind).ok_or_else(|| Fail::new("HARNESS/replay", "unknown parser"))?;
+        return if (t.parse)(&c.text).is_ok() { Err(Fail::new(format!("C10/{}/{}/accepts-relabelled-body", t.backend, t.kind), c.text.clone())) } else { Ok(()) };
+    }
     let src_ver = types.iter().find(|t| t.backend == c.source_backend).map(|t| t.ver).ok_or_else(|| Fail::new("HARNESS/replay", "unknown backend"))?;
     let t = types.iter().find(|t| t.backend == c.target_backend && t.kind == c.target_kind).ok_or_else(|| Fail::new("HARNESS/replay", "unknown parser"))?;
     check_pair(t, &c, src_ver)
@@ -223,7 +275,7 @@ pub fn def() -> PropertyDef {
     PropertyDef {
         id: "C10",
         level: "exploration",
-        rule: "(1) the full ordered-pair matrix: every library-produced valid string of every kind (tokens local/public, keys, ids, PIE, PBKW, sealed keys) of every back end is offered to every (back end, kind) parser - 6 x 18 parsers incl. typed keys and PKE key kinds; expectation from the header table of the specification: accept iff same version and same kind (sibling back ends are the same version and must accept; RSA-2048 vs RSA-4096 v1 key kinds must refuse each other); (2) header rewriting of authenticated PIE / PBKW / sealed blobs to the other key kind and to every other version, unwrapped with the same secret bytes: must fail. (3) key bytes: the serialised keys of every kind of every back end, key ids, a 32-byte key followed by further bytes, and every length 0..=128 are offered to each of the five key decoders of every back end: anything whose length is not exactly that of the requested kind must be rejected. Non-trivial iff the pair differs in exactly one of version / kind (near miss) or must be accepted",
+        rule: "(1) the full ordered-pair matrix: every library-produced valid string of every kind (tokens local/public, keys, ids, PIE, PBKW, sealed keys) of every back end is offered to every (back end, kind) parser - 6 x 18 parsers incl. typed keys and PKE key kinds; expectation from the header table of the specification: accept iff same version and same kind (sibling back ends are the same version and must accept; RSA-2048 vs RSA-4096 v1 key kinds must refuse each other); (1b) the body of every such string under the header of every kind with a fixed body length (ids, typed keys) must be rejected when the lengths differ; (2) header rewriting of authenticated PIE / PBKW / sealed blobs to the other key kind and to every other version, unwrapped with the same secret bytes: must fail. (3) key bytes: the serialised keys of every kind of every back end, key ids, a 32-byte key followed by further bytes, and every length 0..=128 are offered to each of the five key decoders of every back end: anything whose length is not exactly that of the requested kind must be rejected. Non-trivial iff the pair differs in exactly one of version / kind (near miss) or must be accepted",
         assumptions: vec!["the matrix is enumerated completely for the sampled source strings (5 per kind and back end quick, 50 thorough)"],
         subs,
     }
